@@ -16,7 +16,9 @@ Semantics (assumptions of the simulated transport, listed in the evidence):
     while the handler may still run to completion and take effect;
   * calls to an address with no started server wait (wait-for-ready) until the
     deadline; without a deadline they wait until the server appears;
-  * Stop()/kill make the address unreachable; in-flight replies are lost;
+  * Stop()/kill make the address unreachable; in-flight replies are lost (the
+    caller learns about it through its deadline; without a deadline the call
+    hangs until the library gives up on the worker);
   * every call is logged (call event before dispatch, return event after reply)
     from one monotonic clock.
 A fault plan `sim.fault_plan(server, method, index) -> action` can inject
@@ -65,10 +67,14 @@ class _Sim:
     self.call_log = []        # dict events
     self.call_counts = {}     # (addr) -> count of data-plane calls
     self.seq = itertools.count()
-    self.handler_delay = None  # callable(server, method) -> real seconds
+    self.handler_delay = None  # callable(server, method) -> real seconds (before the handler runs)
+    self.reply_delay = None    # callable(server, method) -> real seconds (reply held back after it ran)
     self.dispatch_pool = _cf.ThreadPoolExecutor(
         max_workers=128, thread_name_prefix='fakecourier-dispatch')
     self.poll = 0.0005
+    # Addresses whose process is gone AND whose port refuses connections: new
+    # calls fail at once with UNAVAILABLE instead of waiting for readiness.
+    self.refusing = set()
 
   def reset(self):
     with self.lock:
@@ -77,6 +83,8 @@ class _Sim:
       self.registry.clear()
       self.fault_plan = None
       self.handler_delay = None
+      self.reply_delay = None
+      self.refusing = set()
       self.call_log = []
       self.call_counts = {}
       self.time_scale = 1.0
@@ -259,8 +267,10 @@ class Client:
       # wait for ready
       server = sim.lookup(addr)
       while server is None:
-        if fut.cancelled():
+        if fut.done():
           return
+        if addr in sim.refusing:
+          return self._fail(fut, seq, method, UNAVAILABLE, f'connection refused by {addr}')
         if deadline is not None and time.monotonic() >= deadline:
           return self._fail(fut, seq, method, DEADLINE_EXCEEDED,
                             f'Deadline Exceeded (no server at {addr})')
@@ -292,9 +302,7 @@ class Client:
         sim.kill(server.address)
         kind = 'lost_request'
       if kind == 'lost_request':
-        if deadline is None:
-          return self._fail(fut, seq, method, UNAVAILABLE, 'connection lost')
-        while time.monotonic() < deadline and not fut.cancelled():
+        while (deadline is None or time.monotonic() < deadline) and not fut.done():
           time.sleep(sim.poll * 4)
         return self._fail(fut, seq, method, DEADLINE_EXCEEDED, 'Deadline Exceeded')
 
@@ -318,18 +326,15 @@ class Client:
           break
         if deadline is not None and time.monotonic() >= deadline:
           return self._fail(fut, seq, method, DEADLINE_EXCEEDED, 'Deadline Exceeded')
-        if server._dead or server._epoch != epoch:  # pylint: disable=protected-access
-          if deadline is None:
-            return self._fail(fut, seq, method, UNAVAILABLE, 'server died')
-        if fut.cancelled():
+        if fut.done():
           return
         time.sleep(sim.poll)
       if kind == 'die_after':
         sim.kill(server.address)
       if kind in ('lost_reply', 'die_after') or server._dead or server._epoch != epoch:  # pylint: disable=protected-access
-        if deadline is None:
-          return self._fail(fut, seq, method, UNAVAILABLE, 'connection lost')
-        while time.monotonic() < deadline and not fut.cancelled():
+        # The reply is lost (machine death / partition): the caller only learns
+        # about it through its deadline; without a deadline the call hangs.
+        while (deadline is None or time.monotonic() < deadline) and not fut.done():
           time.sleep(sim.poll * 4)
         return self._fail(fut, seq, method, DEADLINE_EXCEEDED, 'Deadline Exceeded')
       exc = hfut.exception()
@@ -342,6 +347,10 @@ class Client:
         result = _roundtrip(hfut.result())
       except Exception as e:  # pylint: disable=broad-exception-caught
         return self._fail(fut, seq, method, 13, f'cannot serialise result: {e!r}')
+      if sim.reply_delay is not None:
+        rd = sim.reply_delay(server.address, method)
+        if rd:
+          time.sleep(rd)
       sim.log(ev='return', seq=seq, server=addr, method=method, outcome='ok')
       _safe_set_result(fut, result)
     except BaseException as e:  # pylint: disable=broad-exception-caught
